@@ -6,6 +6,7 @@ TTY = "shexer.io.graph.yielder.big_ttl_triples_yielder:BigTtlTriplesYielder"
 TtlY = schema("TtlYielder", [TTY], {"_state": Int, "_tmp_s": Opt(Str), "_tmp_p": Opt(Str), "_tmp_o": Opt(Str), "_base": Opt(Str),
                                     "_prefixes": Dict(Str, Str)})
 regex("backslashes", z3.Star(z3.Re("\\")))
+regex("blanks", z3.Star(z3.Re(" ")))
 
 contract(TTY + "._find_next_blank", params={"target_str": Str, "start_index": Int}, returns=Int,
     requires=["0 <= start_index and start_index <= len(target_str)"],
@@ -64,3 +65,38 @@ contract(TTY + "._find_next_unescaped_quotes", params={"target_str": Str, "start
     props=["C07"],
     note="the position returned holds a quote that is NOT escaped: the maximal run of backslashes right before it has even length "
          "(uses the contract of _count_prior_backslashes, not its body)")
+
+# ---- progress of the line scanner: every token ends after it starts, so the token loop of a line terminates (C04 / C07) ----------------------
+CONTRACTS[TTY + "._find_next_unescaped_quotes"].loops[0]["decreases"] = "ite(pos == -1, 0, len(target_str) - pos)"
+contract(TTY + "._find_next_quoted_literal_ending", params={"target_str": Str, "start_index": Int}, returns=Int,
+    requires=["0 <= start_index and start_index < len(target_str)"],
+    ensures=["start_index < result and result < len(target_str)"],
+    raises=[("ValueError", "?True")], props=["C07", "C04"],
+    note="the literal token ends strictly after its opening quote and inside the line (closing quote, or the blank that ends its ^^datatype / @lang suffix)")
+contract(TTY + "._next_line_token", params={"a_line": Str, "start_index": Int}, returns=Tup(Opt(Str), Opt(Int)),
+    requires=["0 <= start_index",
+              # a '<' that opens the next token is closed on this line (an IRI never spans lines; on such malformed input the unchanged tree
+              # raises IndexError - outside the statement, which speaks about valid documents)
+              "forall(Int, lambda i: implies(start_index <= i and i < len(a_line) and str_at(a_line, i) == '<' and in_re(a_line[start_index:i], 'blanks'), '>' in a_line[i:]))"],
+    ensures=["(result[0] is None) == (result[1] is None)",
+             # progress: the next token is searched strictly after where this one started
+             "implies(result[1] is not None, some(result[1]) > start_index)"],
+    raises=[("ValueError", "?True")], modifies=[],
+    loops={0: {"invariant": ["start_index >= old(start_index)", "start_index <= len(a_line) or start_index == old(start_index)", "in_re(a_line[old(start_index):start_index], 'blanks')"],
+               "decreases": "len(a_line) - start_index"}},
+    props=["C07", "C04"],
+    note="one token of a line: blanks are skipped (terminating), and the position returned for the next search lies strictly after the start "
+         "of this token - the measure that makes the token loop of a line terminate")
+CONTRACTS[TTY + "._next_line_token"].ensures += ["implies(result[1] is not None, some(result[1]) <= len(a_line) + 1)"]
+TripleT = Tup(Opt(Str), Opt(Str), Opt(Str))
+contract(TTY + "._process_line_with_potential_triples", params={"a_line": Str}, yields=TripleT,
+    # every '<' of the line is closed later on the line (IRIs do not span lines; a literal holding a lone '<' is outside this contract)
+    requires=["forall(Int, lambda i: implies(0 <= i and i < len(a_line) and str_at(a_line, i) == '<', '>' in a_line[i:]))"],
+    ensures=[], raises=[("ValueError", "?True")],
+    modifies=["TtlYielder._state[self]", "TtlYielder._tmp_s[self]", "TtlYielder._tmp_p[self]", "TtlYielder._tmp_o[self]"],
+    ghost={"__locals__": {"next_token": Opt(Str), "next_index": Opt(Int)}},
+    loops={0: {"invariant": ["(next_token is None) == (next_index is None)",
+                             "implies(next_index is not None, 0 <= some(next_index) and some(next_index) <= len(a_line) + 1)"],
+               "decreases": "ite(next_index is None, 0, len(a_line) + 2 - some(next_index))"}},
+    props=["C07", "C04"],
+    note="the token loop of a line TERMINATES on every line (measure: characters left after the last token) - the Turtle counterpart of the N-Triples scanner's termination")
